@@ -27,7 +27,7 @@ def record_check(res: dict, c) -> None:
     vio = [l for l in out.splitlines() if l.startswith("VIOLATION")]
     res["check_violation"] = bool(vio) and c.returncode == 1
     idx = out.find("VIOLATION")
-    res["check_says"] = out[max(0, idx - 500):idx + 120].strip()[-600:] if vio else out.strip()[-300:]
+    res["check_says"] = out[max(0, idx - 700):idx + 120].strip()[-820:] if vio else out.strip()[-300:]
 
 
 def evaluate(d: Path) -> dict:
